@@ -62,9 +62,20 @@ type predicateCtx struct {
 	SizeWhy   string
 	OneNode   bool
 	Eval      *ssa.Call
+	ViaHelper *ssa.Call // the context is built and the predicate evaluated in a helper called here
+	InnerEval bool      // ... and that helper returns what the evaluation in the per-candidate context gave
 }
 
 func (w *World) predicateContext(h *ssa.Function, r *Roles) (*predicateCtx, string) {
+	return w.predicateContextX(h, r, true)
+}
+
+// predicateContextIn: the per-candidate context built in h itself (no helpers followed).
+func (w *World) predicateContextIn(h *ssa.Function, r *Roles) (*predicateCtx, string) {
+	return w.predicateContextX(h, r, false)
+}
+
+func (w *World) predicateContextX(h *ssa.Function, r *Roles, follow bool) (*predicateCtx, string) {
 	var pc *predicateCtx
 	why := "no per-candidate context (a local context initialised from the copy method) found"
 	allInstrs(h, func(in ssa.Instruction) {
@@ -145,6 +156,65 @@ func (w *World) predicateContext(h *ssa.Function, r *Roles) (*predicateCtx, stri
 		}
 		pc = p
 	})
+	if pc == nil && follow {
+		// the per-candidate context may be built, and the predicate evaluated, in a helper that is given the node-set
+		// and the candidate's index: E(ctx, expr, set, i) (Result, error)
+		allInstrs(h, func(in ssa.Instruction) {
+			c, ok := in.(*ssa.Call)
+			if !ok || pc != nil {
+				return
+			}
+			e := staticCallee(c)
+			if e == nil || e == h || fnPkgKey(e) != "exec" || e == r.ExecContext || len(e.Blocks) == 0 || e.Signature.Results().Len() != 2 {
+				return
+			}
+			inner, _ := w.predicateContextIn(e, r)
+			if inner == nil || inner.Idx == nil {
+				return
+			}
+			argOf := func(v ssa.Value) ssa.Value {
+				for i, p := range e.Params {
+					if ssa.Value(p) == v && i < len(c.Call.Args) {
+						return c.Call.Args[i]
+					}
+				}
+				return nil
+			}
+			set, idx := argOf(inner.Set), argOf(inner.Idx)
+			if set == nil || idx == nil {
+				return
+			}
+			p := *inner
+			p.Set, p.Idx, p.ViaHelper = set, idx, c
+			// the helper hands back the result of the evaluation in that context
+			allInstrs(e, func(in2 ssa.Instruction) {
+				c2, ok := in2.(*ssa.Call)
+				if !ok || staticCallee(c2) == nil || fnPkgKey(staticCallee(c2)) != "exec" {
+					return
+				}
+				uses := false
+				for _, a := range c2.Call.Args {
+					if a == ssa.Value(inner.Alloc) {
+						uses = true
+					}
+				}
+				if !uses {
+					return
+				}
+				allInstrs(e, func(in3 ssa.Instruction) {
+					if ret, ok := in3.(*ssa.Return); ok && len(ret.Results) == 2 {
+						if ret.Results[0] == ssa.Value(c2) {
+							p.InnerEval = true
+						}
+						if ex, ok := ret.Results[0].(*ssa.Extract); ok && ex.Tuple == ssa.Value(c2) && ex.Index == 0 {
+							p.InnerEval = true
+						}
+					}
+				})
+			})
+			pc = &p
+		})
+	}
 	if pc == nil {
 		return nil, why
 	}
@@ -302,6 +372,9 @@ func checkC02(w *World) {
 				}
 			}
 		})
+		if pc.ViaHelper != nil {
+			evalInCtx, pc.Eval = pc.InnerEval, pc.ViaHelper
+		}
 		w.check(P, "R02.1", "predicate expression evaluated in the per-candidate context", pc.Alloc.Pos(), evalInCtx, fmt.Sprintf("%v", evalInCtx))
 
 		// the decision may be delegated to a truth helper of the package that receives the predicate value and the
